@@ -9,6 +9,7 @@ for d in sorted(glob.glob(os.path.join(here, "seeded", "*"))):
     needs = str(m.get("needs", "")).replace("|", "/").replace("\n", " ")[:200]
     det = str(m.get("detection", "")).replace("|", "/").replace("\n", " ")
     head = re.sub(r"^angle [AB] \([a-z ]+\)\.\s*", "", det, flags=re.I)
+    head = re.sub(r"^equivalent object: .*?\.\s+(?=[A-Z])", "", head, flags=re.I)
     if head.upper().startswith("MISSED") or "THEN MISSED" in det.upper() or "- THEN MISSED -" in det.upper():
         missed += 1
     else:
@@ -26,6 +27,6 @@ while k < len(lines) and lines[k].startswith("| "):
 rest = "\n".join(lines[k:])
 s = s[:i] + "\n".join(rows) + "\n" + rest
 s = re.sub(r"\*\*\d+ changes over \w+ rounds \([^)]*\): \d+ caught by the checks as they were, \d+ missed at first\.\*\*",
-           "**%d changes over twelve rounds (12 per property; C19 has 11): %d caught by the checks as they were, %d missed at first.**" % (len(rows), caught, missed), s)
+           "**%d changes over thirteen rounds (13 per property; C19 has 12): %d caught by the checks as they were, %d missed at first.**" % (len(rows), caught, missed), s)
 open(p, "w").write(s)
 print(len(rows), "rows;", caught, "caught as built;", missed, "missed at first")
